@@ -55,6 +55,18 @@ func (p *IdentityProvider) attributeQueryHandleFunc(w http.ResponseWriter, r *ht
 			if err != nil {
 				return err
 			}
+			if attrQuery == nil {
+				err = fmt.Errorf("no attribute query in request")
+				return err
+			}
+			if attrQuery.Issuer == nil {
+				err = fmt.Errorf("issuer is missing in request")
+				return err
+			}
+			if attrQuery.Subject.NameID == nil {
+				err = fmt.Errorf("subject is missing in request")
+				return err
+			}
 			return nil
 		},
 		func() {
